@@ -349,7 +349,7 @@ theorem relField_merge {mt : SelTree → SelTree → Except Panic SelTree} (HM :
     simp only [SField.name] at hname
     obtain ⟨t1, fd1, ht1, hk1, ha1, hs1, hn1, hf1, hr1⟩ := h1
     obtain ⟨t2, fd2, ht2, hk2, ha2, hs2, hn2, hf2, hr2⟩ := h2
-    have hsame := (hcoh.1 t1 t2 (monoA _ _ _ (pu_all ht1)) (monoB _ _ _ (pu_all ht2)) (by rw [hk1, hk2, hname])).2.1
+    have hsame := (cohAt_full hcoh t1 t2 (monoA _ _ _ (pu_all ht1)) (monoB _ _ _ (pu_all ht2)) (by rw [hk1, hk2, hname])).2.1
     rw [← hsame, hf1] at hf2; cases hf2
     refine ⟨t1, fd1, monoA _ _ _ ht1, hk1, ha1, hs1, hn1, hf1, ?_⟩
     have hT := HM l r' T fd1.ty _ _ hmt hr1 hr2 (by
@@ -390,13 +390,13 @@ theorem mergedFields_rel {mt : SelTree → SelTree → Except Panic SelTree} (HM
   have noB : ∀ f1 ∈ lf, (∀ f ∈ rf, f.name ≠ f1.name) → ∀ t, PU c B tn (included σ) t → t.key ≠ f1.name := by
     intro f1 hf1 hno t ht hk
     obtain ⟨t0, h0, hk0, ha0⟩ := relField_origin (relFields_mem hl f1 hf1)
-    have := (hcoh.1 t t0 (monoB _ _ _ (pu_all ht)) (monoA _ _ _ h0) (by rw [hk, hk0])).1
+    have := (cohAt_full hcoh t t0 (monoB _ _ _ (pu_all ht)) (monoA _ _ _ h0) (by rw [hk, hk0])).1
     obtain ⟨f, hf, hfn, _⟩ := covB t ht (by rw [this, ha0])
     exact hno f hf (by rw [hfn, hk])
   have noA : ∀ f2 ∈ rf, (∀ f ∈ lf, f.name ≠ f2.name) → ∀ t, PU c A tn (included σ) t → t.key ≠ f2.name := by
     intro f2 hf2 hno t ht hk
     obtain ⟨t0, h0, hk0, ha0⟩ := relField_origin (relFields_mem hr f2 hf2)
-    have := (hcoh.1 t t0 (monoA _ _ _ (pu_all ht)) (monoB _ _ _ h0) (by rw [hk, hk0])).1
+    have := (cohAt_full hcoh t t0 (monoA _ _ _ (pu_all ht)) (monoB _ _ _ h0) (by rw [hk, hk0])).1
     obtain ⟨f, hf, hfn, _⟩ := covA t ht (by rw [this, ha0])
     exact hno f hf (by rw [hfn, hk])
   constructor
@@ -506,7 +506,7 @@ theorem mergedBranch_rel {c : Ctx} {mt : SelTree → SelTree → Except Panic Se
         exact ⟨t, monoB _ _ _ ht, by rw [hk, hn0], ha⟩
     obtain ⟨ta, hta, hka, haa⟩ := origin true la ra Aa hal har hRA f hf
     obtain ⟨tu, htu, hku, hau⟩ := origin false lu ru U hul hur hRU g hg
-    have := (hcoh.1 ta tu hta htu (by rw [hka, hku, hname])).1
+    have := (cohAt_full hcoh ta tu hta htu (by rw [hka, hku, hname])).1
     rw [haa, hau] at this; cases this
   · intro σ hag
     obtain ⟨hagl, hagr⟩ := (agree_unify hv).1 hag
